@@ -196,7 +196,9 @@ class Parser:
             elif self.kind() == "id" and p in ("fn", "struct", "impl", "use", "const", "static", "unsafe", "macro_rules", "mod"):
                 self.fail(f"`{p}` inside a function body")
             else:
-                e = self.expr()
+                # a statement that STARTS with `if` / `match` ends with that expression, as in rustc (phase 4g: `if c { panic!() } *dest = x;` was
+                # read as the product `(if ..) * dest`)
+                e = self.primary() if (self.kind() == "id" and p in ("if", "match")) else self.expr()
                 if self.peek() in ASSIGN_OPS and self.kind() == "p":
                     op = self.next(); r = self.expr();
                     if self.peek() != "}": self.expect(";")
